@@ -97,6 +97,8 @@ func runRaw(c *hk.Ctx, cfg hk.SrvCfg, plans []*plan) {
 		body := canonS(map[string]any{"jsonrpc": "2.0", "id": reqID, "method": "tools/call", "params": map[string]any{"name": toolName, "arguments": map[string]any{"nonce": pl.Nonce}}})
 		r := f.Post(hdr, body)
 		in := planSummary(cfg, nil, pl)
+		delete(in, "handlers")
+		delete(in, "viaRawHook")
 		in["request"] = fmt.Sprintf("POST tools/call id=%d Accept=%s", reqID, hdr["Accept"])
 		isSSE := strings.Contains(r.Header.Get("Content-Type"), "text/event-stream")
 		wantSSE := cfg.PostSSE && acceptSSE
@@ -156,11 +158,12 @@ func runRaw(c *hk.Ctx, cfg hk.SrvCfg, plans []*plan) {
 			tags = append(tags, "raw:stream")
 			seenID := map[string]int{}
 			var ms []any
+			var ctrs []int64
 			wellFormed := true
 			for k, id := range ids {
 				if j, dup := seenID[id]; dup {
 					c.Violate(hk.Violation{Fingerprint: "incall:event-ids:duplicate-on-one-stream",
-						What:  "two events of one POST-SSE stream carry the same id (the notification sender and the responder each count from 1 in their own sseutil.Writer)",
+						What:  "two events of one POST-SSE stream carry the same id",
 						Input: in, Observed: map[string]any{"id": id, "events": []int{j, k}, "ids": trunc(canonS(ids), 300)}})
 					tags = append(tags, "raw:duplicate-id")
 				}
@@ -173,6 +176,24 @@ func runRaw(c *hk.Ctx, cfg hk.SrvCfg, plans []*plan) {
 				}
 				t, _ := strconv.ParseInt(m[1], 10, 64)
 				ms = append(ms, t)
+				ct, _ := strconv.ParseInt(m[2], 10, 64)
+				ctrs = append(ctrs, ct)
+			}
+			// the counters of one stream: 1..n+1 (one writer object) or 1..n, 1 (sender and responder count separately)
+			if wellFormed {
+				one, two := true, true
+				for k, ct := range ctrs {
+					if ct != int64(k+1) {
+						one = false
+					}
+					if (k < len(ctrs)-1 && ct != int64(k+1)) || (k == len(ctrs)-1 && ct != 1) {
+						two = false
+					}
+				}
+				if !one && !two {
+					c.Violate(hk.Violation{Fingerprint: "incall:event-ids:counter-not-increasing", What: "the event counters of one stream are neither 1..n+1 nor 1..n,1",
+						Input: in, Observed: trunc(canonS(ids), 300)})
+				}
 			}
 			if wellFormed && len(ids) > 0 {
 				c.Emit(map[string]any{"c": "incall.ids", "ms": ms}, map[string]any{"ids": ids}, len(ids) > 1, tags...)
